@@ -15,7 +15,8 @@ RULE = (
     "tables sampled field by field (1-4 char atom names incl. primes and leading digits, 1-2 letter elements, negative/extreme "
     "coordinates and numbers, charges, insertion codes, alt-locs, 1-5 models, 1-4 chains, HETATM) plus corpus tables; text is "
     "produced by the independent emitter, pushed through parse_*_atoms / write_* of parser_v2, and the final table compared field "
-    "by field with the abstract one (0.001 on coordinates, 0.01 on occupancy/B). Every write_pdb result is checked against the "
+    "by field with the abstract one (0.001 on coordinates, 0.01 on occupancy/B); a third of the cases use the other documented kinds of "
+    "input/output objects (StringIO, open text file already read from, binary handle, output path / handle). Every write_pdb result is checked against the "
     "80-column grammar and the record automaton (MODEL (ATOM+ TER)+ ENDMDL)+ END; splitter.main output files likewise. "
     "Non-trivial = table has >=2 atoms; distinct = canonical JSON hash of the case descriptor."
 )
@@ -187,20 +188,73 @@ def cases(shard, nshards, seed, tier):
                 yield {"family": "splitter", "file": fn, "format": fmt}
 
 
-def roundtrip(rows, path):
-    """Returns (final normalised table, None) or (None, exception)."""
+IN_KINDS = ("str", "stringio", "file", "bytes")  # "bytes" (binary handle) is PDB-only
+OUT_KINDS = ("return", "path", "stringio", "file")
+
+
+def _parse(p2, fmt, text, kind):
+    """The documented input kinds: text, StringIO, an open text file, (PDB) an open binary file."""
+    import io
+    import tempfile
+
+    fn = p2.parse_pdb_atoms if fmt == "pdb" else p2.parse_cif_atoms
+    if kind == "bytes" and fmt != "pdb":
+        kind = "file"
+    _cur["rec"].count(f"io:parse-{fmt}-{kind}")
+    if kind == "str":
+        return fn(text)
+    if kind == "stringio":
+        return fn(io.StringIO(text))
+    with tempfile.NamedTemporaryFile("w", suffix="." + fmt, delete=False) as t:
+        t.write(text)
+    try:
+        with open(t.name, "rb" if kind == "bytes" else "r") as fh:
+            if kind == "file":
+                fh.read(37)  # a handle that was already read from: the reader must rewind
+            return fn(fh)
+    finally:
+        os.remove(t.name)
+
+
+def _write(p2, fmt, df, kind):
+    """The documented output kinds: returned text, a path, a StringIO, an open text file."""
+    import io
+    import tempfile
+
+    fn = p2.write_pdb if fmt == "pdb" else p2.write_cif
+    _cur["rec"].count(f"io:write-{fmt}-{kind}")
+    if kind == "return":
+        return fn(df)
+    if kind == "stringio":
+        buf = io.StringIO()
+        r = fn(df, buf)
+        return buf.getvalue() if r is None else ("<returned %r>" % type(r))
+    d = tempfile.mkdtemp(prefix="vmon-c09-")
+    try:
+        pth = os.path.join(d, "out." + fmt)
+        if kind == "path":
+            fn(df, pth)
+        else:
+            with open(pth, "w") as fh:
+                fn(df, fh)
+        return open(pth).read()
+    finally:
+        import shutil
+
+        shutil.rmtree(d, ignore_errors=True)
+
+
+def roundtrip(rows, path, io_kinds=None):
+    """Final normalised table.  io_kinds = [(input kind, output kind), ...] per step."""
     from rnapolis import parser_v2 as p2
 
     steps = path.split("-")
+    kinds = io_kinds or [("str", "return")] * len(steps)
     text = emit.emit_pdb(rows) if steps[0] == "pdb" else emit.emit_cif(rows)
-    df = p2.parse_pdb_atoms(text) if steps[0] == "pdb" else p2.parse_cif_atoms(text)
-    for fmt in steps[1:]:
-        if fmt == "pdb":
-            text = p2.write_pdb(df)
-            df = p2.parse_pdb_atoms(text)
-        else:
-            text = p2.write_cif(df)
-            df = p2.parse_cif_atoms(text)
+    df = _parse(p2, steps[0], text, kinds[0][0])
+    for k, fmt in enumerate(steps[1:], 1):
+        text = _write(p2, fmt, df, kinds[k][1])
+        df = _parse(p2, fmt, text, kinds[k][0])
     return norm_df(df)
 
 
@@ -289,9 +343,15 @@ def run_case(case, rec):
         rec.skip("roundtrip." + path, "outside-PDB-limits")
         return
     rec.mark_nontrivial(len(rows) >= 2)
+    # every third case goes through the other documented kinds of input / output objects
+    io_kinds = None
+    hsh = int(core.chash(ctx)[:6], 16)
+    if hsh % 3 == 0:
+        io_kinds = [(IN_KINDS[(hsh >> (4 * k + 2)) % 4], OUT_KINDS[(hsh >> (4 * k + 4)) % 4]) for k in range(3)]
+        ctx = dict(ctx, io=io_kinds)
     _cur["ctx"] = ctx
     try:
-        got = roundtrip(rows, path)
+        got = roundtrip(rows, path, io_kinds)
     except Exception as e:
         import traceback
 
